@@ -24,6 +24,8 @@ type Input struct {
 	Svcs     []Svc  `json:"services"`
 	Segs     []hx.B `json:"segments"`
 	Unlisted bool   `json:"unlisted"` // probe a port that is not configured
+	CfgIP    string `json:"cfg_ip,omitempty"`   // port entry carries this address ("" = none)
+	ProbeIP  string `json:"probe_ip,omitempty"` // local address of the probe connection
 }
 
 type Obs struct {
@@ -47,7 +49,11 @@ func mkToml(in Input) string {
 		}
 		fmt.Fprintf(&sb, "[service.%s]\ntype=%q\nname=%q\nprefix=%s\nreadsize=%d\n\n", name, ty, name, hx.TomlStr(s.Prefix), s.ReadSize)
 	}
-	fmt.Fprintf(&sb, "[[port]]\nport=\"%s/80\"\nservices=[%s]\n", in.Proto, strings.Join(names, ","))
+	hostport := "80"
+	if in.CfgIP != "" {
+		hostport = in.CfgIP + ":80"
+	}
+	fmt.Fprintf(&sb, "[[port]]\nport=\"%s/%s\"\nservices=[%s]\n", in.Proto, hostport, strings.Join(names, ","))
 	return sb.String()
 }
 
@@ -69,14 +75,18 @@ func runOne(in Input, scratch string) (Obs, string) {
 	for _, s := range in.Segs {
 		segs = append(segs, []byte(s))
 	}
+	pip := "192.0.2.1"
+	if in.ProbeIP != "" {
+		pip = in.ProbeIP
+	}
 	if in.Proto == "tcp" {
-		err = l.Probe(&net.TCPAddr{IP: net.ParseIP("192.0.2.1"), Port: port}, &net.TCPAddr{IP: net.ParseIP("198.51.100.7"), Port: 40000}, segs)
+		err = l.Probe(&net.TCPAddr{IP: net.ParseIP(pip), Port: port}, &net.TCPAddr{IP: net.ParseIP("198.51.100.7"), Port: 40000}, segs)
 	} else {
 		var d []byte
 		for _, s := range segs {
 			d = append(d, s...)
 		}
-		err = l.ProbeUDP(&net.UDPAddr{IP: net.ParseIP("192.0.2.1"), Port: port}, &net.UDPAddr{IP: net.ParseIP("198.51.100.7"), Port: 40000}, d, nil)
+		err = l.ProbeUDP(&net.UDPAddr{IP: net.ParseIP(pip), Port: port}, &net.UDPAddr{IP: net.ParseIP("198.51.100.7"), Port: 40000}, d, nil)
 	}
 	if err != nil {
 		return ob, "probe: " + err.Error()
@@ -256,12 +266,18 @@ func genInput(r *hx.Rand) Input {
 	if r.Chance(1, 15) {
 		in.Unlisted = true
 	}
+	// ports match on the address too, when one is configured
+	if r.Chance(1, 4) {
+		in.CfgIP = "192.0.2.1"
+		in.ProbeIP = r.PickStr([]string{"192.0.2.1", "192.0.2.1", "192.0.2.2", "198.51.100.200"})
+	}
 	return in
 }
 
 func coqCase(id int, in Input, ob Obs) string {
 	var ss []string
-	if !in.Unlisted {
+	foreign := in.CfgIP != "" && in.ProbeIP != "" && in.ProbeIP != in.CfgIP
+	if !in.Unlisted && !foreign {
 		for _, s := range in.Svcs {
 			det := "(@None bytes)"
 			if s.Detector {
